@@ -783,6 +783,18 @@ class C04(ScanProperty):
         alpha = gen.pick_alpha(rng)
         nm = 1 if i % 3 else rng.randint(1, 3)
         modes = [gen.gen_small_mode(rng, 'M%d' % k, alpha, rng.randint(1, 5), 0.5, min_la=1) for k in range(nm)]
+        if rng.random() < 0.3:
+            # the same lookahead TEXT with the opposite polarity on another pattern of the mode ("X followed by S" /
+            # "X not followed by S"), and the same text on a pattern of another mode
+            m = rng.choice(modes)
+            las = [p for p in m['patterns'] if p.get('la')]
+            if las:
+                src = rng.choice(las)
+                used = set(p['t'] for p in m['patterns'])
+                t = rng.choice([x for x in range(20, 40) if x not in used])
+                twin = {'p': src['p'] if rng.random() < 0.6 else gen.gen_small_re(rng, alpha), 't': t,
+                        'la': {'pos': not src['la']['pos'], 'p': src['la']['p']}}
+                m['patterns'].insert(rng.randrange(len(m['patterns']) + 1), twin)
         if nm > 1:
             gen.add_transitions(rng, modes)
         inp = gen.gen_small_input(rng, alpha, maxlen=14, noise=0.15)
